@@ -225,7 +225,19 @@ type routeSel struct {
 	routesLoad ssa.Value
 	req        ssa.Value // the request as seen by fn
 	call       *ssa.Call // helper call in serve (nil when the loop is in serve)
+	resIdx     int       // index of the route among the helper's results (tuple helpers: route plus e.g. its position)
+	tuple      bool
 	why        string
+}
+
+// isRes: v (in serve) is the route the helper call returned.
+func (s *routeSel) isRes(v ssa.Value) bool {
+	v = an.Strip(v)
+	if !s.tuple {
+		return v == ssa.Value(s.call)
+	}
+	ex, ok := v.(*ssa.Extract)
+	return ok && ex.Tuple == ssa.Value(s.call) && ex.Index == s.resIdx
 }
 
 // nilFact: block b is control-dependent on `x == nil` (isNil) / `x != nil`
@@ -292,7 +304,7 @@ func (s *routeSel) matched(b *ssa.BasicBlock, elem ssa.Value) bool {
 
 func (s *routeSel) isRouteValue(recv ssa.Value) bool {
 	if s.call != nil {
-		return an.Strip(recv) == ssa.Value(s.call)
+		return s.isRes(recv)
 	}
 	return s.isElem(recv)
 }
@@ -301,7 +313,7 @@ func (s *routeSel) isRouteValue(recv ssa.Value) bool {
 // m.routes whose match(req) is true.
 func (s *routeSel) isFirstMatch(recv ssa.Value, b *ssa.BasicBlock) bool {
 	if s.call != nil {
-		return an.Strip(recv) == ssa.Value(s.call) && nilFact(b, false, func(x ssa.Value) bool { return an.Strip(x) == ssa.Value(s.call) })
+		return s.isRes(recv) && nilFact(b, false, s.isRes)
 	}
 	return s.isElem(recv) && s.matched(b, recv)
 }
@@ -309,7 +321,7 @@ func (s *routeSel) isFirstMatch(recv ssa.Value, b *ssa.BasicBlock) bool {
 // noMatch: block b of serve is reached only when no registered route matched.
 func (s *routeSel) noMatch(b *ssa.BasicBlock) bool {
 	if s.call != nil {
-		return nilFact(b, true, func(x ssa.Value) bool { return an.Strip(x) == ssa.Value(s.call) })
+		return nilFact(b, true, s.isRes)
 	}
 	return s.exit.Dominates(b)
 }
@@ -342,15 +354,35 @@ func (c *Ctx) routeSelection(serve *ssa.Function) *routeSel {
 				reqIdx = i
 			}
 		}
-		if reqIdx < 0 || f.Signature.Results().Len() != 1 {
+		// the route is the helper's only result, or the one result of interface type `route` of a tuple (the others -
+		// e.g. the position of the route - are not used to select anything)
+		nRes, resIdx := f.Signature.Results().Len(), -1
+		for i := 0; i < nRes; i++ {
+			if nt, isN := f.Signature.Results().At(i).Type().(*types.Named); isN && nt.Obj().Name() == "route" {
+				if resIdx >= 0 {
+					resIdx = -2
+					break
+				}
+				resIdx = i
+			}
+		}
+		if nRes == 1 {
+			resIdx = 0
+		}
+		if reqIdx < 0 || resIdx < 0 {
 			continue
 		}
-		s := &routeSel{fn: f, head: loopIf.Block(), exit: loopIf.Block().Succs[1], routesLoad: rl, req: f.Params[reqIdx], call: call}
+		s := &routeSel{fn: f, head: loopIf.Block(), exit: loopIf.Block().Succs[1], routesLoad: rl, req: f.Params[reqIdx], call: call, resIdx: resIdx, tuple: nRes > 1}
 		ok = true
 		detail := ""
 		nElem := 0
 		for _, ret := range an.Returns(f) {
 			res := an.ReturnResults(ret)
+			if len(res) != nRes {
+				ok, detail = false, "unexpected return at "+c.pos(ret)
+				continue
+			}
+			res = []ssa.Value{res[resIdx]}
 			switch {
 			case len(res) == 1 && s.isElem(res[0]):
 				nElem++
